@@ -328,11 +328,17 @@ def ob_dispatch(kind, name):
         res.append(("Re k==0", proved("sym-exec+recording-stubs", "modified.%s called once with omega == Im k, result returned" % name)))
     else:
         got = calls[0][0][pos] if calls else None
-        rp = replay_dispatch(kind, name, 0.7)
+        wv = 0.7
+        rp = replay_dispatch(kind, name, wv)
+        if not rp["violates"]:
+            # the symbolic w has no sign: try the other half-line natively
+            rp2 = replay_dispatch(kind, name, -0.7)
+            if rp2["violates"]:
+                wv, rp = -0.7, rp2
         res.append(("Re k==0", violated(
             "helmholtz %s %s with Re k == 0 forwards omega = %s (required: Im k = w) / calls=%d others=%d" % (kind, name, got, len(calls), len(other)),
-            witness={"wavenumber": "0.7j"},
-            replay={"callable": "checks.c05:replay_dispatch", "kwargs": {"kind": kind, "name": name, "w": 0.7},
+            witness={"wavenumber": "%sj" % wv},
+            replay={"callable": "checks.c05:replay_dispatch", "kwargs": {"kind": kind, "name": name, "w": wv},
                     "confirmed": rp["violates"], "result": rp},
             signature="dispatch/%s/%s" % (kind, name))))
     # case B: Re k != 0
